@@ -5,7 +5,7 @@ Proofs/LogLikeP.v, Properties/C04.v.
 Tie A (regenerated on every run): Gen/Threads.v -- the `number_of_threads` getter (0 -> cpu count), the
 division by the sample size at the end of calculate_likelihood and of calculate_likelihood_and_derivatives,
 plus a fail-closed scan of how the engine is fed (data, expressions, thread count, restoration after bootstrap).
-Tie B / property oracles: streams threads_resolution, partition_observed, ll_vs_simulate (+ stress, thorough)."""
+Tie B / property oracles: streams threads_resolution, partition_observed, library_splits, ll_vs_simulate (+ stress, thorough)."""
 import ast
 import json
 import time
@@ -29,6 +29,10 @@ ASSUME = [
     'the theorems are over Coq reals: the equalities between totals hold exactly there; on IEEE doubles they hold up to '
     'the rounding of the additions, which is what the oracle bound (8(n-1)+2k) 2^-53 sum|terms| accounts for',
     'mp.cpu_count() is a positive integer (Section variable cpu_count of Gen/Threads.v)',
+    'library splitters (database.py): Model/LogLike.v py_range / extract_rows / array_split / split_pairs / row_split are hand-written models of '
+    'Python range, DataFrame.iloc[list], numpy.array_split and Database.split, tied by stream library_splits (rows of extract_rows(range) and '
+    'slice sizes of split compared inside Coq) and by the partition / sum oracles; the shuffle of split is an arbitrary permutation; '
+    'split(groups=...) and the panel branch are covered by the oracles only (PARTIAL: no theorem)',
     'sample size N = number of rows (cross-sectional data) / number of individuals (panel data: the per-individual value is the one simulate reports; how it is built from the rows is property C09)',
 ]
 
@@ -252,6 +256,7 @@ def close_scaled(scaled_v, v, N):
 
 # ---------------------------------------------------------------------------------------- generator
 SCALE = 16
+SPEC_KEYS = ('scale', 'model', 'betas', 'weight', 'wconst', 'llkey', 'wkey', 'cols')
 T_KINDS = ['1', '2', '3', 'n-1', 'n', 'n+3', '0']
 
 
@@ -267,6 +272,8 @@ def gen_table(rng, n, model):
     else:                  # many equal weights and a few large ones
         cols['w'] = [16 if rng.random() < 0.8 else rng.randint(100, 4000) for _ in range(n)]
     cols['w2'] = [rng.randint(1, 32) for _ in range(n)]
+    ng = rng.randint(2, max(2, min(6, n)))
+    cols['grp'] = [rng.randint(1, ng) * SCALE for _ in range(n)]
     return cols
 
 
@@ -294,6 +301,60 @@ def gen_split(rng, n):
     return parts
 
 
+def gen_range_partition(rng, n):
+    """a partition of the positions 0..n-1 written with Python ranges of every kind / lists of positions"""
+    mode = rng.random()
+    if mode < 0.35:                         # interleaved: range(k, n, m)
+        m = rng.randint(2, min(4, n))
+        parts = [{'range': [k, n, m]} for k in range(m)]
+    elif mode < 0.5:                        # interleaved, walked backwards
+        m = rng.randint(2, min(4, n))
+        parts = []
+        for k in range(m):
+            last = k + ((n - 1 - k) // m) * m
+            parts.append({'range': [last, -1, -m]})
+    elif mode < 0.65:                       # consecutive blocks, some reversed
+        k = rng.randint(2, min(4, n))
+        cuts = sorted(rng.sample(range(1, n), k - 1))
+        parts = []
+        for a, b in zip([0] + cuts, cuts + [n]):
+            parts.append({'range': [a, b, 1]} if rng.random() < 0.6 else {'range': [b - 1, a - 1, -1]})
+    elif mode < 0.8:                        # blocks themselves interleaved with step 2: evens / odds of each half
+        h = n // 2
+        parts = [p for p in ({'range': [0, h, 2]}, {'range': [1, h, 2]}, {'range': [h, n, 2]}, {'range': [h + 1, n, 2]})
+                 if len(range(*p['range'])) > 0]
+    else:                                   # lists of positions
+        parts = [{'list': p} for p in gen_split(rng, n)]
+    return parts
+
+
+def gen_lib_ops(rng, n, panel=False, ngroups=0):
+    ops = []
+    if n < 2:
+        return ops
+    Tpool = [1, 2, 3, 0]
+    if panel:
+        for _ in range(2):
+            k = rng.randint(2, min(4, n))
+            ops.append({'op': 'split', 'slices': k, 'groups': None, 'seed': rng.randint(1, 10 ** 6), 'Ts': [rng.choice(Tpool) for _ in range(k)]})
+        return ops
+    if rng.random() < 0.75:
+        parts = gen_range_partition(rng, n)
+        ops.append({'op': 'extract', 'parts': parts, 'Ts': [rng.choice(Tpool) for _ in parts]})
+    if rng.random() < 0.75:
+        # number of slices: mostly one that does not divide n
+        ks = [k for k in range(2, min(6, n) + 1)]
+        nd = [k for k in ks if n % k]
+        k = rng.choice(nd) if nd and rng.random() < 0.75 else rng.choice(ks)
+        ops.append({'op': 'split', 'slices': k, 'groups': 'grp' if (rng.random() < 0.25 and ngroups >= k) else None, 'seed': rng.randint(1, 10 ** 6),
+                    'Ts': [rng.choice(Tpool) for _ in range(k)]})
+    if n <= 6 and rng.random() < 0.5:
+        full = rng.random() < 0.5
+        rg = None if full else [n - 1, -1, -1]
+        ops.append({'op': 'rowsplit', 'range': None if full else {'range': rg}, 'Ts': [rng.choice([1, 2]) for _ in range(n)]})
+    return ops
+
+
 def gen_case(rng, i, n=None):
     if n is None:
         r = rng.random()
@@ -301,8 +362,13 @@ def gen_case(rng, i, n=None):
     model = rng.choice([1, 2, 2, 3])
     betas = {f'b{k + 1}': rng.randint(-32, 32) for k in range(model)}
     c = {'kind': 'table', 'id': i, 'scale': SCALE, 'model': model, 'betas': betas,
-         'weight': rng.choice([None, 'w', 'w', 'wexpr']), 'cols': gen_table(rng, n, model),
+         'weight': rng.choice([None, 'w', 'w', 'wexpr', 'const', 'const', 'constexpr', 'constcol']), 'cols': gen_table(rng, n, model),
          'threads': thread_list(n, rng), 'perms': [], 'splits': []}
+    if c['weight'] in ('const', 'constexpr', 'constcol'):
+        c['wconst'] = rng.choice([1, 2, 4, 8, 24, 32, 40, 100, 16]) if rng.random() < 0.7 else rng.randint(1, 400)
+    if rng.random() < 0.3:      # the other accepted names of the two formulas
+        c['llkey'], c['wkey'] = rng.choice(['log_like', 'loglike']), rng.choice(['weight', 'weights'])
+    c['lib'] = gen_lib_ops(rng, n, ngroups=len(set(c['cols']['grp'])))
     if n >= 2:
         for _ in range(rng.randint(2, 3)):
             p = list(range(n))
@@ -342,7 +408,8 @@ def gen_panel_case(rng, i):
     cols, k = gen_panel_cols(rng, model)
     return {'kind': 'table', 'id': f'panel{i}', 'panel': True, 'scale': SCALE, 'model': model,
             'betas': {f'b{j + 1}': rng.randint(-16, 16) for j in range(model)}, 'weight': None, 'cols': cols,
-            'threads': [[t, rng.choice(['kw', 'params'])] for t in (1, 2, 3, max(1, k - 1), k, k + 3, 0)], 'perms': [], 'splits': []}
+            'threads': [[t, rng.choice(['kw', 'params'])] for t in (1, 2, 3, max(1, k - 1), k, k + 3, 0)], 'perms': [], 'splits': [],
+            'lib': gen_lib_ops(rng, k, panel=True)}
 
 
 def load_corpus():
@@ -361,9 +428,10 @@ def load_corpus():
 
 
 def witness(c, **kw):
-    w = {k: c[k] for k in ('kind', 'scale', 'model', 'betas', 'weight', 'cols', 'panel') if k in c}
-    w['table'] = 'cell value = cols[name][row] / scale; weights: ' + ('none (weight one)' if not c.get('weight') else
-                  'column w' if c['weight'] == 'w' else 'w*0.5 + w2')
+    w = {k: c[k] for k in ('kind', 'scale', 'model', 'betas', 'weight', 'wconst', 'llkey', 'wkey', 'cols', 'panel') if k in c}
+    w['table'] = 'cell value = cols[name][row] / scale; weights: ' + {
+        None: 'none (weight one)', 'w': 'column w', 'wexpr': 'w*0.5 + w2', 'const': 'Numeric(wconst/scale)',
+        'constexpr': 'Numeric(wconst/scale)*Numeric(1)+Numeric(0)', 'constcol': 'Numeric(wconst/scale)*w'}.get(c.get('weight'), str(c.get('weight')))
     w.update(kw)
     return w
 
@@ -380,16 +448,17 @@ class Base:
     def __init__(self, c, sim, rows):
         self.ok = False
         self.why = ''
-        if sim is None or 'log_like' not in sim:
-            self.why = 'simulate did not report log_like'
+        llkey, wkey = c.get('llkey', 'log_like'), c.get('wkey', 'weight')
+        if sim is None or llkey not in sim:
+            self.why = f'simulate did not report {llkey}'
             return
-        self.f = Fl(sim['log_like'])
-        self.n = len(sim['log_like'])
+        self.f = Fl(sim[llkey])
+        self.n = len(sim[llkey])
         if c.get('weight'):
-            if 'weight' not in sim:
+            if wkey not in sim:
                 self.why = 'simulate did not report the weight formula'
                 return
-            self.w = Fl(sim['weight'])
+            self.w = Fl(sim[wkey])
         else:
             self.w = [Fraction(1)] * self.n
         if self.f is None or self.w is None:
@@ -529,7 +598,7 @@ def check_eval(ctx, c, base, e, label, key, extra):
     return tot
 
 
-def check_table(ctx, c, r, st_ll, st_part, part_items):
+def check_table(ctx, c, r, st_ll, st_part, part_items, lib_items=None):
     """one 'table' case: oracles + collection of the partition observations"""
     key = 'll'
     if r is None or 'crash' in r or 'runner' in r:
@@ -592,6 +661,8 @@ def check_table(ctx, c, r, st_ll, st_part, part_items):
                               witness(c, split=s['parts'], thread_counts=s['Ts']), [to_float(v) for v in exv],
                               [to_float(v) for v in summed], HOW)
                 break
+    for op, lr in zip(c.get('lib', []), r.get('lib', [])):
+        check_lib(ctx, c, base, n, op, lr, st_ll, lib_items if lib_items is not None else [])
     if 'negative' in r:
         ng = r['negative']
         e0 = next((e for e in evs if 'd' in e and e['d']['ok']), None)
@@ -609,6 +680,148 @@ def check_table(ctx, c, r, st_ll, st_part, part_items):
             if not okk:
                 ctx.violation('C04/ll/negative/value', 'the function given to the optimiser is not minus the unscaled weighted sums',
                               witness(c, T=c['negative']), {'f': to_float(-exf[0])}, v, HOW)
+
+
+def spec_positions(spec):
+    return list(range(*spec['range'])) if 'range' in spec else list(spec['list'])
+
+
+def check_lib(ctx, c, base, n, op, r, st, lib_items):
+    """parts made by the library itself (Database.extract_rows / split / mdcev_row_split): they must hold every
+    observation exactly once and their totals must add up to the total of the data set"""
+    name = op['op']
+    key = f'll/lib-{name}'
+    wit = witness(c, library_call=op)
+    allobs = list(range(n))
+
+    def bad(sub, what, expected, observed):
+        ctx.violation(f'C04/{key}/{sub}', what, wit, expected, observed, HOW)
+
+    def add_up(tots, label, quantities):
+        if any(t is None for t in tots):
+            return
+        for what, qn in quantities:
+            exv, abv, m = base.exact(what, allobs)
+            summed = [sum(t[what][j] for t in tots) for j in range(len(exv))]
+            j = cmp_vec(summed, exv, abv, n, m)
+            if j is not None:
+                bad(f'sum-{what}', f'{label}: the {qn} summed over the parts differs from the {qn} of the data set (entry {j})',
+                    [to_float(v) for v in exv], [to_float(v) for v in summed])
+                return
+
+    ALLQ = (('f', 'log likelihood'), ('g', 'gradient'), ('h', 'hessian'), ('b', 'bhhh'))
+    if 'error' in r:
+        bad('exception', f'Database.{name} raised on a valid request: {r["error"].get("exc")}: {r["error"].get("msg")}', 'parts', r['error'])
+        return
+    if name in ('extract', 'rowsplit'):
+        if name == 'extract':
+            expected = [spec_positions(sp) for sp in op['parts']]
+            call = 'extract_rows'
+        else:
+            pos = allobs if op.get('range') is None else spec_positions(op['range'])
+            expected = [[x] for x in pos]
+            call = 'mdcev_row_split'
+        parts = r['parts']
+        st.record({'id': c.get('id'), 'n': n, 'lib': op, 'h': hash_cols(c)}, nontrivial=len(expected) >= 2)
+        if len(parts) != len(expected):
+            bad('parts', f'Database.{call}: {len(parts)} parts for {len(expected)} requested' + (': ' + str(parts[0].get('build'))[:200] if parts else ''),
+                len(expected), len(parts))
+            return
+        tots = []
+        for i, (e, exp) in enumerate(zip(parts, expected)):
+            if 'build' in e and e.get('rows') is None:
+                bad('exception', f'Database.{call}, part {i}: {str(e["build"])[:250]}', exp, e['build'])
+                return
+            obs = e.get('raw_rows', e.get('rows'))
+            if name == 'extract' and 'range' in op['parts'][i]:
+                lib_items.append(('range', op['parts'][i]['range'], obs, c, op))
+            if obs != exp:
+                bad('rows', f'Database.{call}, part {i} ({op["parts"][i] if name == "extract" else exp}) does not hold the requested rows', exp, obs)
+            tots.append(check_eval(ctx, c, base, e, f'part {i} made by Database.{call}', key, {'library_call': op}))
+        add_up(tots, f'Database.{call}', ALLQ)
+        return
+    # ---- split
+    pairs = r['pairs']
+    k = op['slices']
+    st.record({'id': c.get('id'), 'n': n, 'lib': op, 'h': hash_cols(c)}, nontrivial=(n % k != 0))
+    if len(pairs) != k:
+        bad('parts', f'Database.split returned {len(pairs)} pairs for {k} slices', k, len(pairs))
+        return
+    for i, p in enumerate(pairs):
+        for role in ('validation', 'estimation'):
+            if p[role].get('rows') is None:
+                bad('exception', f'Database.split, slice {i}, {role} set: {str(p[role].get("build"))[:250]}', 'a data set', p[role].get('build'))
+                return
+    vrows = [p['validation']['rows'] for p in pairs]
+    if sorted(x for v in vrows for x in v) != allobs:
+        missing = sorted(set(allobs) - set(x for v in vrows for x in v))
+        bad('not-a-partition', f'Database.split({k}) on {n} observations: the validation slices do not hold every observation exactly once '
+            f'(missing {missing})', allobs, vrows)
+        return
+    for i, p in enumerate(pairs):
+        if sorted(p['validation']['rows'] + p['estimation']['rows']) != allobs:
+            bad('not-a-partition', f'Database.split({k}): estimation and validation sets of slice {i} do not hold every observation exactly once',
+                allobs, {'estimation': p['estimation']['rows'], 'validation': p['validation']['rows']})
+            return
+    if op.get('groups') and not c.get('panel'):
+        g = c['cols'][op['groups']]
+        for gid in set(g):
+            if len({i for i, v in enumerate(vrows) for x in v if g[x] == gid}) != 1:
+                bad('groups', f'Database.split(groups): group {gid} is spread over several slices', 'one slice per group', vrows)
+                return
+    elif not c.get('panel'):
+        lib_items.append(('split', n, k, [len(v) for v in vrows], c, op))
+    vt = [check_eval(ctx, c, base, p['validation'], f'validation slice {i} of Database.split({k})', key, {'library_call': op})
+          for i, p in enumerate(pairs)]
+    add_up(vt, f'Database.split({k}), validation slices', ALLQ)
+    for i, p in enumerate(pairs):
+        et = check_eval(ctx, c, base, p['estimation'], f'estimation set {i} of Database.split({k})', key, {'library_call': op})
+        add_up([et, vt[i]], f'Database.split({k}), estimation + validation set {i}', (('f', 'log likelihood'),))
+
+
+def stream_library(ctx, lib_items):
+    st = ctx.stream('library_splits',
+                    'rows of Database.extract_rows(range(start, stop, step)) vs the model py_range, sizes of the validation slices of '
+                    'Database.split(k) vs the model array_split_sizes n k, compared inside Coq; non-trivial = step other than 1 / n not a '
+                    'multiple of k; distinct by (range, n) / (n, k)')
+    if not lib_items:
+        return
+    items, metas = [], []
+    for it in lib_items:
+        if it[0] == 'range':
+            (a, b, s_), obs = it[1], it[2]
+            if obs is None:
+                continue
+            items.append(f'(true, [{a}; {b}; {s_}], ' + coq_list([str(x) for x in obs]) + ')')
+            st.record({'range': it[1], 'n': len(it[3]['cols']['x1'])}, nontrivial=(s_ != 1))
+        else:
+            _, n, k, sizes = it[:4]
+            items.append(f'(false, [{n}; {k}], ' + coq_list([str(x) for x in sizes]) + ')')
+            st.record({'n': n, 'k': k}, nontrivial=(n % k != 0))
+        metas.append(it)
+    files = {}
+    B = 300
+    hdr = ('From Coq Require Import ZArith List Bool.\nFrom BV Require Import Model.LogLike.\nImport ListNotations.\nOpen Scope Z_scope.\n'
+           'Fixpoint leq (a b : list Z) : bool := match a, b with [], [] => true | x :: a, y :: b => (x =? y) && leq a b | _, _ => false end.\n'
+           'Definition chk (c : bool * list Z * list Z) : bool := let \'(isr, args, obs) := c in\n'
+           '  match isr, args with\n  | true, [a; b; s] => leq (py_range a b s) obs\n'
+           '  | false, [n; k] => leq (map Z.of_nat (array_split_sizes (Z.to_nat n) (Z.to_nat k))) obs\n  | _, _ => false end.\n')
+    for i in range(0, len(items), B):
+        files[f'lib_{i // B}'] = hdr + 'Definition cases := ' + coq_list(items[i:i + B], ';\n') + '.\nEval vm_compute in (map chk cases).\n'
+    outs = ctx.coq_eval_many(files)
+    for name, (ok, out) in outs.items():
+        i0 = int(name.split('_')[1]) * B
+        bs = parse_bools(out) if ok else []
+        if not ok or len(bs) != len(items[i0:i0 + B]):
+            ctx.stream_broken('library_splits', 'model evaluation failed: ' + out[-400:])
+            return
+        for j, b in enumerate(bs):
+            if not b:
+                it = metas[i0 + j]
+                st.disagree({'kind': it[0], 'args': it[1] if it[0] == 'range' else [it[1], it[2]]}, 'model py_range / array_split_sizes',
+                            it[2] if it[0] == 'range' else it[3])
+    if st.disagreements:
+        ctx.stream_broken('library_splits', f'{len(st.disagreements)} disagreements, first: ' + json.dumps(st.disagreements[0], default=str)[:800])
 
 
 def hash_cols(c):
@@ -843,7 +1056,10 @@ LL_RULE = ('generated tables (1-40 rows, dyadic cells k/16), logit log likelihoo
            'BIOGEME keyword or a Parameters object), on 2-3 row permutations and on 1-3 splits into 2-4 parts (and the one-row-per-part '
            'split for n<=8); after changing the thread count through the setter; before / after estimate(run_bootstrap=True), also when a '
            'bootstrap re-estimation raises (fault injected into the k-th optimize call, caught) on cross-sectional and panel data; panel '
-           'tables (unequal individuals, log PanelLikelihoodTrajectory): one observation = one individual, scaled = total / number of individuals. '
+           'tables (unequal individuals, log PanelLikelihoodTrajectory): one observation = one individual, scaled = total / number of individuals; '
+           'weight formula also a bare Numeric constant, a constant expression, a constant times a column, formulas named loglike / weights; '
+           'parts made by the library: Database.extract_rows on range partitions (interleaved step 2-4, backwards, reversed blocks, lists), '
+           'Database.split(k) (k mostly not dividing n; groups=; panel) validation slices and estimation/validation pairs, mdcev_row_split. '
            'Oracle: calculate_likelihood and calculate_likelihood_and_derivatives (f, g, h, bhhh; scaled and not) within '
            '(8(n-1)+2k) 2^-53 sum|terms| of the EXACT rational sum of weight x per-row value (simulate for f and the weight; the '
            'disaggregated evaluator for the derivatives). One evaluation = one BIOGEME object; non-trivial = at least 2 rows (threads), '
@@ -865,7 +1081,7 @@ def stream_ll(ctx, only=None, n_cases=None, with_partition=True):
             base = gen_case(rng, 20000 + i, n=rng.choice([5, 10, 11, 16, 23]))
             for j, pr in enumerate(RETHREAD_PAIRS + [[rng.randint(1, 20), rng.randint(0, 20)] for _ in range(2)]):
                 cases.append({'kind': 'rethread', 'id': f'rt{i}.{j}', 'pairs': [pr],
-                              **{k: base[k] for k in ('scale', 'model', 'betas', 'weight', 'cols')}})
+                              **{k: base[k] for k in SPEC_KEYS if k in base}})
         cases += [gen_bootstrap_case(rng, i) for i in range(ctx.n(2, 6))]
         cases += [gen_panel_case(rng, i) for i in range(ctx.n(6, 60))]
         cases += [gen_bootstrap_case(rng, 100 + i, fault=True, panel=(i % 2 == 1)) for i in range(ctx.n(4, 16))]
@@ -878,9 +1094,9 @@ def stream_ll(ctx, only=None, n_cases=None, with_partition=True):
     res_special = (ctx.impl_cases('c04_ll.py', special[:nrt], chunk=3, timeout=600) if nrt else []) + \
                   (ctx.impl_cases('c04_ll.py', special[nrt:], chunk=1, timeout=600) if special[nrt:] else [])
     res_tables = ctx.impl_cases('c04_ll.py', tables, chunk=max(1, min(12, len(tables) // 16 + 1)), timeout=900) if tables else []
-    part_items = []
+    part_items, lib_items = [], []
     for c, r in zip(tables, res_tables):
-        check_table(ctx, c, r, st, None, part_items)
+        check_table(ctx, c, r, st, None, part_items, lib_items)
     boot_ok = 0
     boot_corpus_failed = []
     for c, r in zip(special, res_special):
@@ -899,6 +1115,7 @@ def stream_ll(ctx, only=None, n_cases=None, with_partition=True):
         ctx.stream_broken('ll_vs_simulate', f'{len(st.disagreements)} disagreements, first: ' + json.dumps(st.disagreements[0], default=str)[:1200])
     if with_partition:
         stream_partition(ctx, part_items)
+        stream_library(ctx, lib_items)
 
 
 # ---------------------------------------------------------------------------------------- stream threads_resolution
@@ -911,7 +1128,7 @@ def stream_threads(ctx):
     base = gen_case(rng, 0, n=6)
     reqs = [[p, route] for p in [0, 1, 2, 3, 5, 7, 16, 17, 40, 64, 1000] for route in ('kw', 'params', 'setter')]
     reqs += [[rng.randint(0, 40), rng.choice(['kw', 'params', 'setter'])] for _ in range(ctx.n(10, 60))]
-    c = {'kind': 'threads', 'requests': reqs, **{k: base[k] for k in ('scale', 'model', 'betas', 'weight', 'cols')}}
+    c = {'kind': 'threads', 'requests': reqs, **{k: base[k] for k in SPEC_KEYS if k in base}}
     res = ctx.impl_cases('c04_ll.py', [c], chunk=1)[0]
     if res is None or 'crash' in res or 'runner' in res:
         ctx.violation('C04/threads/crash', 'thread-count resolution: the process died', {'requests': reqs}, None, res, HOW)
@@ -1052,7 +1269,7 @@ def replay(ctx, path):
         shutil.rmtree(ctx.scratch, ignore_errors=True)
         return 2
     n = len(wit['cols']['x1'])
-    c = {k: wit[k] for k in ('scale', 'model', 'betas', 'weight', 'cols', 'panel') if k in wit}
+    c = {k: wit[k] for k in SPEC_KEYS + ('panel',) if k in wit}
     c['id'] = 'replay'
     parts = key.split('/')
     if len(parts) > 1 and parts[1] == 'rethread':
@@ -1066,6 +1283,8 @@ def replay(ctx, path):
         c.update(kind='table', threads=[[1, 'kw']] + ([[T, 'kw'], [T, 'params']] if T is not None else []), perms=[], splits=[])
         if 'permutation' in wit:
             c['perms'] = [{'perm': wit['permutation'], 'T': T if T is not None else 1}]
+        if 'library_call' in wit:
+            c['lib'] = [wit['library_call']]
         if 'split' in wit:
             c['splits'] = [{'parts': wit['split'], 'Ts': wit.get('thread_counts') or [1] * len(wit['split'])}]
         if parts[-2:-1] == ['negative'] or 'negative' in key:
